@@ -133,7 +133,20 @@ type Sim struct {
 	sitesHit      map[string]int
 	ctlHash       map[uint64]struct{}
 	RecordJournal bool
-	ReadFileHook  func(path string) (override bool, data []byte, err error)
+	// Watch, if set, makes the scheduler record where every other goroutine is whenever it releases a
+	// goroutine at a site for which Watch returns true (used to classify what was stalled when the
+	// engine gave up).
+	Watch        func(site string) bool
+	Snapshots    []Snapshot
+	ReadFileHook func(path string) (override bool, data []byte, err error)
+}
+
+// Snapshot is the position of every simulated goroutine at one decision.
+type Snapshot struct {
+	Seq    int64    `json:"seq"`
+	Site   string   `json:"site"`
+	G      string   `json:"g"`
+	Others []string `json:"others"` // "role@site" (parked) or "role after@site" (blocked natively)
 }
 
 // Stats are per-run counters for the evidence file.
@@ -220,8 +233,6 @@ func (s *Sim) park(site string, m *sync.Mutex, nsel int, lazy bool, notBefore in
 	g.LastSite = site
 	p := &parked{g: g, site: site, mu: m, ch: make(chan struct{}), nsel: nsel, lazy: lazy, notBefore: notBefore}
 	s.mu.Lock()
-	s.order++
-	p.order = s.order
 	if old := s.parked[g.Name]; old != nil {
 		s.harness = append(s.harness, "goroutine parked twice: "+g.Name)
 	}
@@ -654,6 +665,19 @@ func (s *Sim) Run(until func() bool) Outcome {
 		}
 		s.mu.Lock()
 		delete(s.parked, p.g.Name)
+		if s.Watch != nil && s.Watch(p.site) && len(s.Snapshots) < 64 {
+			sn := Snapshot{Seq: s.seq.Load() + 1, Site: p.site, G: p.g.Name}
+			for _, q := range s.parked {
+				sn.Others = append(sn.Others, roleOf(q.g.Name)+"@"+q.site)
+			}
+			for _, g := range s.live {
+				if s.parked[g.Name] == nil && g.Name != p.g.Name {
+					sn.Others = append(sn.Others, roleOf(g.Name)+" after@"+g.LastSite)
+				}
+			}
+			sort.Strings(sn.Others)
+			s.Snapshots = append(s.Snapshots, sn)
+		}
 		s.mu.Unlock()
 		s.lastRun = p.g.Name
 		n := s.seq.Add(1)
@@ -704,8 +728,18 @@ func (s *Sim) snapshot() *State {
 	defer s.mu.Unlock()
 	st := &State{Seq: s.seq.Load(), Now: time.Since(s.t0), Cur: -1}
 	all := make([]*parked, 0, len(s.parked))
+	var fresh []*parked
 	for _, p := range s.parked {
 		all = append(all, p)
+		if p.order == 0 {
+			fresh = append(fresh, p)
+		}
+	}
+	// Arrival order within one quiescence window is a real race; FIFO numbers are handed out by name.
+	sort.Slice(fresh, func(a, b int) bool { return fresh[a].g.Name < fresh[b].g.Name })
+	for _, p := range fresh {
+		s.order++
+		p.order = s.order
 	}
 	sort.Slice(all, func(a, b int) bool { return all[a].order < all[b].order })
 	h := fnv.New64a()
